@@ -516,16 +516,22 @@ func (m *MonC05) OnEnd(w *World) []Violation {
 		var granting, valid *accessAnswer
 		var badTrig *trigger
 		for _, a := range cands {
-			if a.T < stim && b.triggerBetween(e.CID, name, a.T, stim, false) != nil {
+			// the verdict reaches the connection through the resource's cache queue,
+			// which a pending query event suspends: it takes effect at the unlock
+			aT := b.effT(name, a.T)
+			if aT != a.T {
+				m.class("verdict_delayed_by_query_lock")
+			}
+			if aT < stim && b.triggerBetween(e.CID, name, aT, stim, false) != nil {
 				// an earlier access answer was invalidated before this call was made
 				m.nontriv = true
 				m.class("trigger_between_earlier_answer_and_call")
 			}
 			if a.HasRes && canCallRef(a.Call, method) {
 				granting = a
-				if a.T >= stim {
+				if aT >= stim {
 					valid = a
-				} else if tr := b.triggerBetween(e.CID, name, a.T, stim, true); tr == nil {
+				} else if tr := b.triggerBetween(e.CID, name, aT, stim, true); tr == nil {
 					valid = a
 					m.class("call_on_cached_verdict")
 					if tr2 := b.triggerBetween(e.CID, name, a.ReqT, e.T, false); tr2 != nil {
